@@ -14,7 +14,12 @@
       is `hashKey v` (strings / bytes by content: `DefaultHasher` collisions only enlarge a bucket and every
       index hit is re-checked), the B-tree key is `ordKey v` = the `OrderedKey` equivalence class
       (`OrderedFloat`: all NaNs one lowest key, -0.0 and 0.0 one key);
-    * results are row-id lists sorted ascending, as the engine sorts every result by id.
+    * results are row-id lists sorted ascending, as the engine sorts every result by id;
+    * a JSON value (`serde_json::Value`, default features: numbers are u64 / negative i64 / finite f64, objects
+      are `BTreeMap`s) is its tree together with its rendered text `to_string()`.  The rendering itself
+      (number formatting, string escaping) is serde_json's and is not modelled: the harness supplies it.  The
+      tree decides equality and the hash bucket, the text decides the order and the B-tree key -- exactly
+      the split the engine makes.
 -/
 namespace Neumann.Rel
 
@@ -37,6 +42,67 @@ def fEq (a b : Nat) : Bool := !fIsNan a && !fIsNan b && decide (fKey a = fKey b)
 def fCmp (a b : Nat) : Option Ordering :=
   if fIsNan a || fIsNan b then none else some (icmp (fKey a) (fKey b))
 
+/-- lexicographic order of byte strings (`String::cmp`, `Vec<u8>::cmp`) -/
+def lexCmp : List Nat → List Nat → Ordering
+  | [], [] => .eq
+  | [], _ :: _ => .lt
+  | _ :: _, [] => .gt
+  | a :: as, b :: bs => if a < b then .lt else if b < a then .gt else lexCmp as bs
+
+/-! ## JSON trees (`serde_json::Value`) -/
+
+/-- `serde_json::Number` (`N::PosInt(u64)`, `N::NegInt(i64)` -- negative only --, `N::Float(f64)` -- finite only) -/
+inductive JNum where
+  | pos (n : Nat)
+  | neg (i : Int)
+  | flt (bits : Nat)
+  deriving DecidableEq, Repr
+
+/-- `serde_json::Value`.  Arrays and objects are spelled as cons cells so that the type is a plain inductive:
+    `[x, y]` = `acons x (acons y anil)`, `{"a": x, "b": y}` = `ocons a x (ocons b y onil)` (a `BTreeMap`:
+    ascending keys). -/
+inductive Json where
+  | null
+  | bool (b : Bool)
+  | num (n : JNum)
+  | str (utf8 : List Nat)
+  | anil
+  | acons (head tail : Json)
+  | onil
+  | ocons (key : List Nat) (val rest : Json)
+  deriving DecidableEq, Repr
+
+/-- `impl PartialEq for N`: same kind and equal payload; floats with `f64 ==` -/
+def JNum.eq : JNum → JNum → Bool
+  | .pos a, .pos b => decide (a = b)
+  | .neg a, .neg b => decide (a = b)
+  | .flt a, .flt b => fEq a b
+  | _, _ => false
+
+/-- derived `PartialEq for serde_json::Value` (`Vec` / `BTreeMap` equality: same length, pairwise equal) -/
+def Json.eq : Json → Json → Bool
+  | .null, .null => true
+  | .bool a, .bool b => decide (a = b)
+  | .num a, .num b => JNum.eq a b
+  | .str a, .str b => decide (a = b)
+  | .anil, .anil => true
+  | .acons a as, .acons b bs => Json.eq a b && Json.eq as bs
+  | .onil, .onil => true
+  | .ocons k v r, .ocons k' v' r' => decide (k = k') && Json.eq v v' && Json.eq r r'
+  | _, _ => false
+
+/-- the number arm of `json_with_positive_zeros`: `n.is_f64() && n.as_f64() == Some(0.0)` ↦ `0.0` -/
+def JNum.posZero : JNum → JNum
+  | .flt b => if fIsZero b then .flt 0 else .flt b
+  | n => n
+
+/-- `Value::json_with_positive_zeros`: every floating-point zero becomes `0.0`, recursively -/
+def Json.posZeros : Json → Json
+  | .num n => .num n.posZero
+  | .acons h t => .acons h.posZeros t.posZeros
+  | .ocons k v r => .ocons k v.posZeros r.posZeros
+  | j => j
+
 /-! ## Values -/
 
 inductive Value where
@@ -46,14 +112,8 @@ inductive Value where
   | str (utf8 : List Nat)
   | bool (b : Bool)
   | bytes (bs : List Nat)
+  | json (j : Json) (text : List Nat)      -- the tree and `j.to_string()` as UTF-8 bytes
   deriving DecidableEq, Repr, Inhabited
-
-/-- lexicographic order of byte strings (`String::cmp`, `Vec<u8>::cmp`) -/
-def lexCmp : List Nat → List Nat → Ordering
-  | [], [] => .eq
-  | [], _ :: _ => .lt
-  | _ :: _, [] => .gt
-  | a :: as, b :: bs => if a < b then .lt else if b < a then .gt else lexCmp as bs
 
 /-- derived `PartialEq for Value` -/
 def Value.eq : Value → Value → Bool
@@ -63,19 +123,24 @@ def Value.eq : Value → Value → Bool
   | .str a, .str b => decide (a = b)
   | .bool a, .bool b => decide (a = b)
   | .bytes a, .bytes b => decide (a = b)
+  | .json a _, .json b _ => Json.eq a b
   | _, _ => false
 
-/-- `Value::partial_cmp_value` (no arm for Bool or Null) -/
+/-- `Value::partial_cmp_value` (no arm for Bool or Null; JSON: `a.to_string().cmp(&b.to_string())`) -/
 def partialCmp : Value → Value → Option Ordering
   | .int a, .int b => some (icmp a b)
   | .float a, .float b => fCmp a b
   | .str a, .str b => some (lexCmp a b)
   | .bytes a, .bytes b => some (lexCmp a b)
+  | .json _ a, .json _ b => some (lexCmp a b)
   | _, _ => none
 
-/-- bucket of `Value::hash_key` (after the fix: both zeros share the bucket of +0.0) -/
+/-- bucket of `Value::hash_key` (both float zeros share the bucket of +0.0).  JSON: the engine hashes the
+    rendered text of `json_with_positive_zeros(v)`; the rendering is a function of the tree, so the bucket
+    is modelled by the normalised tree (like strings: `DefaultHasher` collisions only enlarge a bucket) -/
 inductive HKey where
   | null | i (n : Int) | f (bits : Nat) | s (utf8 : List Nat) | b (v : Bool) | y (bs : List Nat)
+  | j (v : Json)
   deriving DecidableEq, Repr
 
 def hashKey : Value → HKey
@@ -85,8 +150,9 @@ def hashKey : Value → HKey
   | .str s => .s s
   | .bool v => .b v
   | .bytes b => .y b
+  | .json v _ => .j v.posZeros
 
-/-- the pre-fix `hash_key`: raw bit pattern -/
+/-- the `hash_key` before 35b6d13b: a float's raw bit pattern -/
 def hashKeyOld : Value → HKey
   | .null => .null
   | .int n => .i n
@@ -94,11 +160,19 @@ def hashKeyOld : Value → HKey
   | .str s => .s s
   | .bool v => .b v
   | .bytes b => .y b
+  | .json v _ => .j v.posZeros
+
+/-- the `hash_key` before f72f348f: a JSON value's rendered text as it is (`-0.0` and `0.0` render
+    differently, so the un-normalised tree is the bucket) -/
+def hashKeyJsonTextOld : Value → HKey
+  | .json v _ => .j v
+  | x => hashKey x
 
 /-- `OrderedKey` up to its `Ord`-equality (what a `BTreeMap` distinguishes):
     `float none` = NaN (one lowest key), `float (some k)` = sign-magnitude key -/
 inductive OKey where
   | null | bool (b : Bool) | int (i : Int) | float (k : Option Int) | str (s : List Nat) | bytes (s : List Nat)
+  | json (text : List Nat)          -- `OrderedKey::Json(j.to_string())`
   deriving DecidableEq, Repr
 
 def ordKey : Value → OKey
@@ -108,9 +182,10 @@ def ordKey : Value → OKey
   | .float b => if fIsNan b then .float none else .float (some (fKey b))
   | .str s => .str s
   | .bytes s => .bytes s
+  | .json _ t => .json t
 
 def OKey.rank : OKey → Nat
-  | .null => 0 | .bool _ => 1 | .int _ => 2 | .float _ => 3 | .str _ => 4 | .bytes _ => 5
+  | .null => 0 | .bool _ => 1 | .int _ => 2 | .float _ => 3 | .str _ => 4 | .bytes _ => 5 | .json _ => 6
 
 /-- derived `Ord for OrderedKey` with `OrderedFloat::cmp` -/
 def OKey.cmp : OKey → OKey → Ordering
@@ -123,6 +198,7 @@ def OKey.cmp : OKey → OKey → Ordering
   | .float (some a), .float (some b) => icmp a b
   | .str a, .str b => lexCmp a b
   | .bytes a, .bytes b => lexCmp a b
+  | .json a, .json b => lexCmp a b
   | a, b => if a.rank < b.rank then .lt else .gt
 
 /-! ## Rows and conditions -/
@@ -171,7 +247,7 @@ def evaluate : Cond → Nat → List Value → Bool
 
 /-! ## Table state -/
 
-inductive ColType where | int | float | str | bool | bytes
+inductive ColType where | int | float | str | bool | bytes | json
   deriving DecidableEq, Repr
 
 structure RowE where
@@ -236,6 +312,7 @@ def typeOk : ColType → Value → Bool
   | .str, .str _ => true
   | .bool, .bool _ => true
   | .bytes, .bytes _ => true
+  | .json, .json _ _ => true
   | _, _ => false
 
 /-- column-order validation of `insert` -/
@@ -797,5 +874,11 @@ def selectLimitTruncFirst (t : Table) (c : Cond) (limit offset : Nat) : List Nat
     the null bitmap -/
 def intLeafNoNullMask (op : Option RangeOp) (neg : Bool) (k : Int) (v : Value) : Bool :=
   intLeaf op neg k (match v with | .null => .int 0 | x => x)
+
+/-- `select` on `c = v` through a hash index built over `rows` and probed with the bucket function `key`
+    (lookup, fetch, re-check, sort) -- the index path of `select` with the bucket function as a parameter -/
+def selectHashWith (key : Value → HKey) (rows : List RowE) (c : ColRef) (v : Value) : List Nat :=
+  let ids := ((buildIdx key c rows).filter (fun p => decide (p.1 = key v))).map (·.2)
+  selectViaIds ⟨[], rows, [], []⟩ (.eq c v) ids
 
 end Neumann.Rel
